@@ -190,13 +190,15 @@ func isOnceDo(c *ssa.CallCommon) (*ssa.Function, ssa.Value, bool) {
 	return nil, c.Args[0], true
 }
 
-// moduleFunc: fn belongs to the analysed module (incl. synthetic wrappers).
+// moduleFunc: fn belongs to a subject package of the analysed module (incl. synthetic
+// wrappers); examples, perf and the test helper packages are not analysis subjects and
+// are not followed as callees either.
 func (p *Prog) moduleFunc(fn *ssa.Function) bool {
 	if fn == nil {
 		return false
 	}
-	_, ok := p.FuncRel(fn)
-	return ok
+	rel, ok := p.FuncRel(fn)
+	return ok && subjectRel(rel)
 }
 
 // SyncCallees returns the in-module functions a call instruction may invoke
